@@ -2380,6 +2380,19 @@ func (w *World) uniformArgOf(p *ssa.Parameter) ssa.Value {
 			}
 			a = ss[0].Val
 		}
+		// handed on from a helper that itself always receives one value (a.badRequest() called
+		// from the handler and from a.reject())
+		for i := 0; i < 4; i++ {
+			pp, isP := a.(*ssa.Parameter)
+			if !isP || pp.Parent() == fn {
+				break
+			}
+			if r := w.uniformArgOf(pp); r != nil {
+				a = r
+				continue
+			}
+			break
+		}
 		switch a.(type) {
 		case *ssa.Parameter, *ssa.Alloc, *ssa.Global, *ssa.Function, *ssa.Const, *ssa.Call, *ssa.Extract, *ssa.MakeClosure, *ssa.FreeVar:
 		default:
